@@ -2,4 +2,4 @@ From Coq Require Extraction ExtrOcamlBasic.
 From RdpV Require Import Base Msg LayoutsGlobal Link Tpkt Global.
 From RdpV Require Import RefFraming RefFastPath RefSession.
 Extraction Language OCaml.
-Extraction "../ocaml/session/model.ml" init_session run_ops do_op enc_smsg.
+Extraction "../ocaml/session/model.ml" init_session keyboard_layout_from run_ops do_op enc_smsg.
